@@ -319,6 +319,9 @@ func Generate(seed int64, feat Features) *Module {
 	for _, f := range g.funcs {
 		m.Side = append(m.Side, NamedValue{Ref: f.V.final(), Type: f.V.T.String(), Kind: "func"})
 		for _, p := range f.Params {
+			if f.decl {
+				break // parameters of declarations are not numbered by the generator
+			}
 			m.Side = append(m.Side, NamedValue{Func: f.V.final(), Ref: p.final(), Type: p.T.String(), Kind: "param"})
 		}
 		for _, b := range f.blocks {
